@@ -83,6 +83,8 @@ package main
 // errors of either step fail the whole configuration; no types => error; a parameter given on the
 // command line determines the field whatever the YAML file said
 //@ func ReadConfig
+//@ # readFromCLI never fails: its error branch cannot fire
+//@ unreachable 1
 //@ propagates [C16]
 //@ ghost k0 string
 //@ define p(n) = strings.TrimSpace(params[n])
@@ -365,6 +367,9 @@ package main
 
 // a selected (or nested) message is either built completely or fails; an unselected root is skipped
 //@ func BuildMessage
+//@ ghost g int
+//@ requires [C12] regOK(plugin, g)
+//@ ensures [C12] regOK(plugin, g) && regFr(plugin)
 //@ propagates [C18]
 //@ ghost j0 int
 //@ requires wfp(plugin) && descOK(plugin.Generator, desc, j0) && (isRoot || path != "") && imp(isRoot, desc.GetName() != "") && !strcontains(plugin.Config.DefaultPackageName, "(")
@@ -382,22 +387,32 @@ package main
 
 // every field is built in declaration order; the first error fails the whole message
 //@ func BuildFields
+//@ ghost g int
+//@ requires [C12] regOK(m.plugin, g)
+//@ ensures [C12] regOK(m.plugin, g) && regFr(m.plugin)
+//@ invariant[0] regOK(m.plugin, g) && regFr(m.plugin)
 //@ propagates [C18]
 //@ ghost j0 int
 //@ requires wfm(m) && m.desc.DescriptorProto != nil && !strcontains(m.config.DefaultPackageName, "(")
 //@ requires descOK(m.gen, m.desc, j0)
 //@ modifies m.plugin.Messages, m.plugin.Imports.qualifiers[_]
 //@ invariant[0] wfm(m) && same(messageFields, m.desc.GetField())
+//@ # the fields BuildField returns are appended: element k of the result becomes element len(fields)+k
+//@ instantiate j0 - len(fields)
+//@ instantiate h0 - len(fields)
 //@ invariant[0] fresh(fields) && !isnilslice(fields)
 //@ invariant[0] imp(0 <= j0 && j0 < len(fields), fields[j0] != nil && fresh(fields[j0]))
 //@ ensures [C18] imp(result1 != nil, isnilslice(result0))
 //@ ensures [C10] imp(len(m.desc.GetField()) == 0, result1 == nil && len(result0) == 1 && result0[0] != nil && result0[0].IsPlaceholder && result0[0].NameSnake == "active")
+//@ ghost h0 int
+//@ invariant[0] imp(0 <= h0 && h0 < len(fields), fields[h0] != nil && fresh(fields[h0]))
 //@ ensures imp(result1 == nil && 0 <= j0 && j0 < len(result0), result0[j0] != nil && fresh(result0[j0]))
 //@ ensures wfp(m.plugin)
+//@ ensures [C15] imp(m.config.Sort && result1 == nil && 0 <= j0 && j0 < h0 && h0 < len(result0), !(result0[h0].Name < result0[j0].Name))
 
 //@ define fieldOK(g, d, fd) = fd != nil && fd.Type != nil && fd.GetName() != "" && noStd(fd) && imp(fd.OneofIndex != nil, 0 <= *fd.OneofIndex && *fd.OneofIndex < len(d.OneofDecl) && d.OneofDecl[*fd.OneofIndex] != nil && d.OneofDecl[*fd.OneofIndex].GetName() != "") && imp(g.IsMap(fd), mapOK(g, fd))
 //@ define mapOK(g, fd) = g.GoMapType(nil, fd) != nil && imp(g.GoMapType(nil, fd).ValueField != nil, g.GoMapType(nil, fd).ValueField.Type != nil && g.GoMapType(nil, fd).ValueField.GetName() != "" && g.GoMapType(nil, fd).ValueField.OneofIndex == nil && noStd(g.GoMapType(nil, fd).ValueField) && !gogoproto.IsEmbed(g.GoMapType(nil, fd).ValueField) && !g.IsMap(g.GoMapType(nil, fd).ValueField))
-//@ define descOK(g, d, j) = d != nil && d.DescriptorProto != nil && imp(0 <= j && j < len(d.OneofDecl), d.OneofDecl[j] != nil && d.OneofDecl[j].GetName() != "") && imp(0 <= j && j < len(d.GetField()), fieldOK(g, d, d.GetField()[j]))
+//@ define descOK(g, d, j) = d != nil && d.DescriptorProto != nil && d.GetName() != "" && imp(0 <= j && j < len(d.OneofDecl), d.OneofDecl[j] != nil && d.OneofDecl[j].GetName() != "") && imp(0 <= j && j < len(d.GetField()), fieldOK(g, d, d.GetField()[j]))
 //@ define wfc2(c) = wfc(c) && wfm(c.MessageBuildContext) && c.imports == c.MessageBuildContext.imports && wfd(c) && c.path != "" && !strcontains(c.config.DefaultPackageName, "(")
 //@ define noStd(p) = !gogoproto.IsStdDouble(p) && !gogoproto.IsStdFloat(p) && !gogoproto.IsStdInt64(p) && !gogoproto.IsStdUInt64(p) && !gogoproto.IsStdInt32(p) && !gogoproto.IsStdUInt32(p) && !gogoproto.IsStdBool(p) && !gogoproto.IsStdString(p) && !gogoproto.IsStdBytes(p)
 //@ define excludedF(c) = has(c.config.ExcludeFields, c.typeName) || has(c.config.ExcludeFields, c.path)
@@ -413,6 +428,11 @@ package main
 // a nested message is built with the path of the field that refers to it (so that per-path options
 // reach it), and registered; failure to build it fails the field
 //@ func Field.getMessage
+//@ # a nested message is never skipped (BuildMessage returns nil, nil only for an unselected root): `if m == nil` cannot fire
+//@ unreachable 1
+//@ ghost g int
+//@ requires [C12] regOK(c.plugin, g)
+//@ ensures [C12] regOK(c.plugin, g) && regFr(c.plugin)
 //@ propagates [C18]
 //@ requires f != nil && wfc2(c)
 //@ modifies c.plugin.Messages, c.plugin.Imports.qualifiers[_]
@@ -424,6 +444,11 @@ package main
 //@ ensures wfp(c.plugin)
 
 //@ func Field.setMessage
+//@ # getMessage never returns nil, nil: `if f.Message == nil` cannot fire
+//@ unreachable 1
+//@ ghost g int
+//@ requires [C12] regOK(c.plugin, g)
+//@ ensures [C12] regOK(c.plugin, g) && regFr(c.plugin)
 //@ propagates [C18]
 //@ requires f != nil && wfc2(c)
 //@ modifies f.Message, c.plugin.Messages, c.plugin.Imports.qualifiers[_]
@@ -449,16 +474,24 @@ package main
 //@ ensures same(result0.MessageBuildContext, c.MessageBuildContext) && result0.imports == c.imports
 
 //@ func Field.getMapValueField
+//@ # NewMapValueFieldBuildContext never fails
+//@ unreachable 1
+//@ ghost g int
+//@ requires [C12] regOK(c.plugin, g)
+//@ ensures [C12] regOK(c.plugin, g) && regFr(c.plugin)
 //@ propagates [C18]
-//@ requires f != nil && wfc2(c) && mapOK(c.gen, c.field.FieldDescriptorProto)
+//@ requires f != nil && wfc2(c) && mapOK(c.gen, c.field.FieldDescriptorProto) && c.desc.DescriptorProto != nil
 //@ modifies c.plugin.Messages, c.plugin.Imports.qualifiers[_]
 //@ ensures [C18] imp(result2 != nil, isnilslice(result1))
 //@ ensures [C18] imp(result2 == nil && len(result1) > 0, result1[0] != nil)
 //@ ensures wfp(c.plugin)
 
 //@ func Field.setMapValues
+//@ ghost g int
+//@ requires [C12] regOK(c.plugin, g)
+//@ ensures [C12] regOK(c.plugin, g) && regFr(c.plugin)
 //@ propagates [C18]
-//@ requires f != nil && wfc2(c) && mapOK(c.gen, c.field.FieldDescriptorProto)
+//@ requires f != nil && wfc2(c) && mapOK(c.gen, c.field.FieldDescriptorProto) && c.desc.DescriptorProto != nil
 //@ modifies *f, c.plugin.Messages, c.plugin.Imports.qualifiers[_]
 //@ ensures [C18] imp(result == nil, f.MapValueField != nil)
 //@ ensures f.Name == old(f.Name) && f.NameSnake == old(f.NameSnake) && f.Path == old(f.Path) && f.IsRequired == old(f.IsRequired) && f.IsComputed == old(f.IsComputed) && f.IsSensitive == old(f.IsSensitive) && f.IsMap == old(f.IsMap) && f.IsRepeated == old(f.IsRepeated) && same(f.Validators, old(f.Validators)) && same(f.PlanModifiers, old(f.PlanModifiers)) && f.Comment == old(f.Comment) && f.IsMessage == old(f.IsMessage) && f.IsCustomType == old(f.IsCustomType) && f.OneOfName == old(f.OneOfName)
@@ -467,6 +500,10 @@ package main
 // One Field per field: an excluded field yields nothing before anything else is looked at; a field
 // that cannot be mapped fails; otherwise name, path, flags and kind follow descriptor and configuration
 //@ func BuildField
+//@ ghost g int
+//@ requires [C12] regOK(c.plugin, g)
+//@ ensures [C12] regOK(c.plugin, g) && regFr(c.plugin)
+//@ invariant[0] regOK(c.plugin, g) && regFr(c.plugin)
 //@ propagates [C18]
 //@ ghost j0 int
 //@ requires c != nil && wfc2(c) && noStd(c.field.FieldDescriptorProto) && c.desc.DescriptorProto != nil
@@ -554,6 +591,115 @@ package main
 //@ ensures [C07,C15] len(result) == len(c.desc.OneofDecl)
 //@ ensures [C07,C15] imp(!c.config.Sort && 0 <= j0 && j0 < len(result), result[j0] == camel(nm(j0)))
 //@ ensures [C15] imp(c.config.Sort && 0 <= i0 && i0 < j0 && j0 < len(result), result[i0] <= result[j0])
+
+// ---------------------------------------------------------------------------------------------
+// plugin.go: the registry of built messages
+//
+// regOK(p, g): entry g of the registry is a message, and a root message only if selected.
+// Maintained by every function that may register a message; Plugin.write emits only root entries.
+//@ define regOK(p, g) = imp(0 <= g && g < len(p.Messages), p.Messages[g] != nil && imp(p.Messages[g].IsRoot, has(p.Config.Types, p.Messages[g].Name)))
+
+// the registry slice is either untouched or a new array (append copies): nobody else's array is written
+//@ define regFr(p) = same(p.Messages, old(p.Messages)) || fresh(p.Messages)
+
+//@ func Plugin.RegisterMessage
+//@ ghost g int
+//@ requires p != nil
+//@ modifies p.Messages
+//@ ensures len(p.Messages) == old(len(p.Messages)) + 1 && p.Messages[old(len(p.Messages))] == m
+//@ ensures imp(0 <= g && g < old(len(p.Messages)), p.Messages[g] == old(p.Messages[g]))
+//@ ensures fresh(p.Messages)
+
+// ---- gogo: the messages of a file, in declaration order (a function of the file descriptor)
+//@ extern generator.FileDescriptor.Messages(d)
+
+// every top-level message of the file is offered to BuildMessage in declaration order; a message that
+// fails is skipped as a whole (nothing of it is registered as root); under `sort` the registry is
+// ordered by name
+//@ func Plugin.build
+//@ ghost g int
+//@ ghost h int
+//@ ghost j0 int
+//@ ghost k0 int
+//@ define msgs = file.Messages()
+//@ requires wfp(p) && file != nil && !strcontains(p.Config.DefaultPackageName, "(")
+//@ requires imp(0 <= k0 && k0 < len(msgs), descOK(p.Generator, msgs[k0], j0) && msgs[k0].GetName() != "")
+//@ requires [C12] regOK(p, g) && regOK(p, h)
+//@ modifies p.Messages, p.Messages[_], p.Imports.qualifiers[_]
+//@ invariant[0] wfp(p) && regOK(p, g) && regOK(p, h) && regFr(p)
+//@ ensures [C12,C18] regOK(p, g)
+//@ ensures [C15] imp(p.Config.Sort && 0 <= g && g < h && h < len(p.Messages), !(p.Messages[h].Name < p.Messages[g].Name))
+//@ ensures wfp(p)
+
+// ---- writing the file: what the three message-level generators and the shared-code generator put
+// into the output is the subject of Tier 2 (per field shape); here the output is seen through four
+// abstract predicates ("the text contains the schema / CopyFrom / CopyTo function of message x", "ends
+// with the shared code"), and the contract of Plugin.write says which of them hold of the output
+//@ specfunc hasSchema(string, *Message) bool
+//@ specfunc hasCopyFrom(string, *Message) bool
+//@ specfunc hasCopyTo(string, *Message) bool
+//@ specfunc hasShared(string) bool
+// the output buffer as a string; the writer handed down by Plugin.Generate is a *bytes.Buffer
+//@ define wbuf(w) = string(as(w, *bytes.Buffer).buf)
+//@ define wOK(w) = is(w, *bytes.Buffer) && as(w, *bytes.Buffer) != nil
+//@ define keeps(w, x) = imp(hasSchema(old(wbuf(w)), x), hasSchema(wbuf(w), x)) && imp(hasCopyFrom(old(wbuf(w)), x), hasCopyFrom(wbuf(w), x)) && imp(hasCopyTo(old(wbuf(w)), x), hasCopyTo(wbuf(w), x))
+
+//@ func NewMessageSchemaGenerator
+//@ ensures result != nil && fresh(result) && result.Message == m && result.i == i
+//@ func NewMessageCopyFromGenerator
+//@ ensures result != nil && fresh(result) && result.Message == m && result.i == i
+//@ func NewMessageCopyToGenerator
+//@ ensures result != nil && fresh(result) && result.Message == m && result.i == i
+//@ func NewSharedCodeGenerator
+//@ ensures result.i == i
+
+// only root messages are ever handed to a message-level generator (precondition, checked at every
+// call); a generator appends: what the output had, it keeps (x: any message)
+//@ func MessageSchemaGenerator.Generate
+//@ trusted
+//@ ghost x *Message
+//@ requires [C12] m != nil && m.Message != nil && m.Message.IsRoot && m.i != nil && wOK(writer)
+//@ modifies *as(writer, *bytes.Buffer), m.i.qualifiers[_]
+//@ ensures imp(result1 == nil, hasSchema(wbuf(writer), m.Message))
+//@ ensures keeps(writer, x)
+//@ func MessageCopyFromGenerator.Generate
+//@ trusted
+//@ ghost x *Message
+//@ requires [C12] m != nil && m.Message != nil && m.Message.IsRoot && m.i != nil && wOK(writer)
+//@ modifies *as(writer, *bytes.Buffer), m.i.qualifiers[_]
+//@ ensures imp(result1 == nil, hasCopyFrom(wbuf(writer), m.Message))
+//@ ensures keeps(writer, x)
+//@ func MessageCopyToGenerator.Generate
+//@ trusted
+//@ ghost x *Message
+//@ requires [C12] m != nil && m.Message != nil && m.Message.IsRoot && m.i != nil && wOK(writer)
+//@ modifies *as(writer, *bytes.Buffer), m.i.qualifiers[_]
+//@ ensures imp(result1 == nil, hasCopyTo(wbuf(writer), m.Message))
+//@ ensures keeps(writer, x)
+//@ func SharedCodeGenerator.Write
+//@ trusted
+//@ ghost x *Message
+//@ requires s.i != nil && wOK(writer)
+//@ modifies *as(writer, *bytes.Buffer), s.i.qualifiers[_]
+//@ ensures imp(result1 == nil, hasShared(wbuf(writer)))
+//@ ensures keeps(writer, x)
+
+// every root message of the list gets its schema, then every root message its two converters, then
+// the shared code once; nothing is generated for a message that is not root; the first failure
+// fails the whole file
+//@ func Plugin.write
+//@ propagates [C18]
+//@ ghost g int
+//@ # the callees' "any message" is instantiated at the g-th message
+//@ instantiate m[g]
+//@ requires p != nil && wOK(out)
+//@ requires imp(0 <= g && g < len(m), m[g] != nil)
+//@ modifies *as(out, *bytes.Buffer), p.Imports.qualifiers[_]
+//@ invariant[0] imp(done(g) && m[g].IsRoot, hasSchema(wbuf(out), m[g]))
+//@ invariant[1] imp(0 <= g && g < len(m) && m[g].IsRoot, hasSchema(wbuf(out), m[g]))
+//@ invariant[1] imp(done(g) && m[g].IsRoot, hasCopyFrom(wbuf(out), m[g]) && hasCopyTo(wbuf(out), m[g]))
+//@ ensures [C12,C01] imp(result == nil && 0 <= g && g < len(m) && m[g].IsRoot, hasSchema(wbuf(out), m[g]) && hasCopyFrom(wbuf(out), m[g]) && hasCopyTo(wbuf(out), m[g]))
+//@ ensures [C01] imp(result == nil, hasShared(wbuf(out)))
 
 // ===================================================================== CopyFrom, emitted code
 
